@@ -27,7 +27,7 @@ func ExoticAttrName(kind int) string {
 func ExoticAttr(s *Src, kind int) bgp.PathAttributeInterface {
 	switch kind {
 	case ExoticAttrExtCommunities:
-		n := s.Len(6)
+		n := 1 + s.Len(5) // an empty attribute is malformed (RFC 7606 7.14)
 		ecs := make([]bgp.ExtendedCommunityInterface, 0, n)
 		for i := 0; i < n; i++ {
 			ecs = append(ecs, ExtCommunity(s))
